@@ -1821,6 +1821,12 @@ class BADS:
                 is_search_improved = sto_success == 1
                 is_search_success = is_search_improved
 
+        if u_search.size == 0:
+            # (nothing was evaluated: an empty search set is never an
+            # improvement, whatever the improvement quantile says)
+            is_search_improved = False
+            is_search_success = False
+
         # A search improvement implies an update of the incumbent
         if is_search_improved:
             if self.options["acq_hedge"]:
